@@ -1069,6 +1069,15 @@ def _contexts_active_by_referents(frame: types.FrameType, origin: Any) -> List[C
     return ret
 
 
+def _manager_of(exit_callable: object) -> object:
+    try:
+        return getattr(exit_callable, "__self__", None)
+    except Exception:
+        # A callable object with a __getattr__ that raises something
+        # other than AttributeError
+        return None
+
+
 def _contexts_active_by_trickery(frame: types.FrameType) -> List[Context]:
     """Version of `contexts_active_in_frame` that provides full information
     on tested versions of CPython and PyPy by accessing the block stack.
@@ -1092,7 +1101,7 @@ def _contexts_active_by_trickery(frame: types.FrameType) -> List[Context]:
             # type provides something else - a static method, a callable
             # object, a mock - the manager itself isn't recoverable, but
             # that's no reason to give up on the whole frame.)
-            obj=getattr(frame_details.stack[block.level - 1], "__self__", None),
+            obj=_manager_of(frame_details.stack[block.level - 1]),
         )
         for block in with_blocks
     ]
